@@ -66,7 +66,21 @@ type SpecClause struct {
 	Line  int
 }
 
+// EachTemplate is an "ensures-each Type[kinds] except a,b: [label] template"
+// directive: one ensures clause per field of the struct type, generated from
+// go/types of the current working tree ($f = field name).
+type EachTemplate struct {
+	Type   string
+	Kinds  []string
+	Except map[string]bool
+	Label  string
+	Text   string
+	File   string
+	Line   int
+}
+
 type FuncSpec struct {
+	Each       []*EachTemplate
 	Name       string // display name, e.g. sbom.NodeList.RemoveNodes
 	Pkg        string
 	ParamNames []string
@@ -118,6 +132,7 @@ type TypeInv struct {
 }
 
 type SpecDB struct {
+	fieldsets map[string][]string // struct type key -> fields with a set view
 	typeinvs []*TypeInv
 	funcs    map[string]*FuncSpec
 	preds    map[string]*PredSpec
@@ -131,7 +146,7 @@ type SpecDB struct {
 }
 
 func newSpecDB() *SpecDB {
-	return &SpecDB{funcs: map[string]*FuncSpec{}, preds: map[string]*PredSpec{}, globals: map[string]*GlobalDecl{},
+	return &SpecDB{fieldsets: map[string][]string{}, funcs: map[string]*FuncSpec{}, preds: map[string]*PredSpec{}, globals: map[string]*GlobalDecl{},
 		ifaces: map[string]*FuncSpec{}, ftypes: map[string]*FuncSpec{}, expect: map[string]int{}, source: map[string]string{}}
 }
 
@@ -160,7 +175,15 @@ func specKey(fn *ssa.Function) string {
 }
 
 func (db *SpecDB) funcSpec(fn *ssa.Function) *FuncSpec {
-	return db.funcs[specKey(fn)]
+	k := specKey(fn)
+	if s := db.funcs[k]; s != nil {
+		return s
+	}
+	// a contract on a generic function covers all its instantiations
+	if i := strings.Index(k, "["); i >= 0 {
+		return db.funcs[k[:i]]
+	}
+	return nil
 }
 
 func (db *SpecDB) ifaceSpec(t types.Type, method string) *FuncSpec {
@@ -181,9 +204,9 @@ func (db *SpecDB) funcTypeSpec(t types.Type) *FuncSpec {
 
 // ---- file parsing ----
 
-var clauseKw = map[string]bool{"requires": true, "ensures": true, "assigns": true, "invariant": true, "decreases": true,
+var clauseKw = map[string]bool{"ensures-each": true, "requires": true, "ensures": true, "assigns": true, "invariant": true, "decreases": true,
 	"owns": true, "trusted": true, "inline": true, "pure": true, "holds": true, "props": true, "params": true}
-var declKw = map[string]bool{"typeinv": true, "func": true, "pred": true, "lemma": true, "global": true, "interface": true, "type": true, "expect-obligations": true, "table": true}
+var declKw = map[string]bool{"fieldset-of": true, "typeinv": true, "func": true, "pred": true, "lemma": true, "global": true, "interface": true, "type": true, "expect-obligations": true, "table": true}
 
 type rawClause struct {
 	kw   string
@@ -369,6 +392,17 @@ func (db *SpecDB) parseFile(file, src string) error {
 				db.expect["prop:"+parts[0]] += n
 			}
 			cur = nil
+		case "fieldset-of":
+			// fieldset-of sbom.Node: Id, Name
+			colon := strings.Index(r.text, ":")
+			if colon < 0 {
+				return fail(fmt.Errorf("fieldset-of Type: fields"))
+			}
+			tk := strings.TrimSpace(r.text[:colon])
+			for _, fld := range strings.Split(r.text[colon+1:], ",") {
+				db.fieldsets[tk] = append(db.fieldsets[tk], strings.TrimSpace(fld))
+			}
+			cur = nil
 		case "typeinv":
 			colon := strings.Index(r.text, ":")
 			if colon < 0 {
@@ -388,6 +422,33 @@ func (db *SpecDB) parseFile(file, src string) error {
 			}
 			cl := &SpecClause{Kind: r.kw, Text: r.text, File: file, Line: r.line, Loop: -1}
 			switch r.kw {
+			case "ensures-each":
+				// Type[kind,kind] [except a,b]: [label] template
+				colon := strings.Index(r.text, ":")
+				lb := strings.Index(r.text, "[")
+				rb := strings.Index(r.text, "]")
+				if colon < 0 || lb < 0 || rb < 0 || rb > colon {
+					return fail(fmt.Errorf("ensures-each Type[kinds] [except a,b]: [label] template"))
+				}
+				et := &EachTemplate{Type: strings.TrimSpace(r.text[:lb]), Except: map[string]bool{}, File: file, Line: r.line}
+				for _, k := range strings.Split(r.text[lb+1:rb], ",") {
+					et.Kinds = append(et.Kinds, strings.TrimSpace(k))
+				}
+				mid := strings.TrimSpace(r.text[rb+1 : colon])
+				if strings.HasPrefix(mid, "except") {
+					for _, x := range strings.Split(strings.TrimSpace(strings.TrimPrefix(mid, "except")), ",") {
+						et.Except[strings.TrimSpace(x)] = true
+					}
+				}
+				body := strings.TrimSpace(r.text[colon+1:])
+				if strings.HasPrefix(body, "[") {
+					if e := strings.Index(body, "]"); e > 0 {
+						et.Label = body[1:e]
+						body = strings.TrimSpace(body[e+1:])
+					}
+				}
+				et.Text = body
+				cur.Each = append(cur.Each, et)
 			case "owns":
 				cur.Owns = true
 			case "trusted":
@@ -933,10 +994,97 @@ func (p *parser) primary() (Expr, error) {
 	return nil, fmt.Errorf("unexpected token %q", t.text)
 }
 
+// fieldsetsFor lists the fields F for which some contract uses
+// fieldset(<slice of *T>, F); found by scanning the contract text.
+func (db *SpecDB) fieldsetsFor(typeKey string) []string {
+	return db.fieldsets[typeKey]
+}
+
 func (db *SpecDB) typeinvTexts() []string {
 	var out []string
 	for _, t := range db.typeinvs {
 		out = append(out, t.Pkg+"."+t.Type+": "+t.Text)
 	}
 	return out
+}
+
+// fieldKind classifies a struct field type for ensures-each templates.
+func fieldKind(t types.Type) string {
+	switch u := t.Underlying().(type) {
+	case *types.Basic:
+		switch {
+		case u.Info()&types.IsString != 0:
+			return "string"
+		case u.Info()&types.IsBoolean != 0:
+			return "bool"
+		case u.Info()&types.IsInteger != 0:
+			if _, named := t.(*types.Named); named {
+				return "enum"
+			}
+			return "int"
+		}
+	case *types.Slice:
+		return "slice"
+	case *types.Map:
+		return "map"
+	case *types.Pointer:
+		return "ptr"
+	}
+	return "other"
+}
+
+// expandTemplates turns ensures-each directives into ensures clauses using the
+// struct types of the loaded program.
+func (db *SpecDB) expandTemplates(eng *Engine) error {
+	for _, fs := range db.funcs {
+		for _, et := range fs.Each {
+			pkg := eng.typesPkgByName(fs.Pkg)
+			tn := et.Type
+			if i := strings.Index(tn, "."); i >= 0 {
+				pkg = eng.typesPkgByName(tn[:i])
+				tn = tn[i+1:]
+			}
+			if pkg == nil {
+				return fmt.Errorf("%s:%d: unknown package for %s", et.File, et.Line, et.Type)
+			}
+			o := pkg.Scope().Lookup(tn)
+			if o == nil {
+				return fmt.Errorf("%s:%d: unknown type %s", et.File, et.Line, et.Type)
+			}
+			st, ok := o.Type().Underlying().(*types.Struct)
+			if !ok {
+				return fmt.Errorf("%s:%d: %s is not a struct", et.File, et.Line, et.Type)
+			}
+			n := 0
+			for i := 0; i < st.NumFields(); i++ {
+				f := st.Field(i)
+				if isProtoInternalField(f) || et.Except[f.Name()] {
+					continue
+				}
+				k := fieldKind(f.Type())
+				match := false
+				for _, want := range et.Kinds {
+					if want == k || want == "all" {
+						match = true
+					}
+				}
+				if !match {
+					continue
+				}
+				text := strings.ReplaceAll(et.Text, "$f", f.Name())
+				e, err := parseExpr(text)
+				if err != nil {
+					return fmt.Errorf("%s:%d: %s: %v", et.File, et.Line, text, err)
+				}
+				label := strings.ReplaceAll(et.Label, "$f", f.Name())
+				fs.Ensures = append(fs.Ensures, &SpecClause{Kind: "ensures", Text: text, Expr: e, Label: label, File: et.File, Line: et.Line, Loop: -1})
+				n++
+			}
+			if n == 0 {
+				return fmt.Errorf("%s:%d: ensures-each %s[%v] matched no field", et.File, et.Line, et.Type, et.Kinds)
+			}
+		}
+		fs.Each = nil
+	}
+	return nil
 }
